@@ -232,6 +232,13 @@ Ltac facts_all_to_initial s :=
              match v with context [mem x _] => rewrite (proj2 H) in K end
          end.
 
+(* [unfold_helper]: the head call is a routine of the model this file has no lemma for (e.g. a private helper a
+   maintainer extracted): unfold it, delta only, and go on; a pure helper then shows as [bind (if .. then Ok a x else Ok b x) k] *)
+Ltac unfold_helper :=
+  match goal with |- ?Q' (bind (?h ?x) ?k) =>
+    is_const h; cbv delta [h]; cbv beta
+  end.
+
 Ltac mode_tail s W HQ :=
   repeat first [ do_read s W | head_let s
                | match goal with |- ?Q' (if w_eqb (get f_X ?x) 1 then _ else _) =>
@@ -239,7 +246,14 @@ Ltac mode_tail s W HQ :=
                    first [ match goal with E : w_eqb (get f_X s) 1 = _ |- _ => rewrite E; cbv iota end
                          | let E := fresh "EX" in destruct (w_eqb (get f_X s) 1) eqn:E ]
                  end
-               | match goal with |- ?Q' (if ?c then _ else _) => destruct c end ];
+               | match goal with |- ?Q' (bind (if w_eqb (get f_X ?x) 1 then _ else _) _) =>
+                   args_to_initial s x;
+                   first [ match goal with E : w_eqb (get f_X s) 1 = _ |- _ => rewrite E; cbv iota end
+                         | let E := fresh "EX" in destruct (w_eqb (get f_X s) 1) eqn:E ]
+                 end
+               | match goal with |- ?Q' (bind (Ok _ _) _) => rewrite bind_Ok; cbv beta end
+               | match goal with |- ?Q' (if ?c then _ else _) => destruct c end
+               | unfold_helper ];
   facts_all_to_initial s.
 
 Ltac mode_finish s HQ :=
